@@ -7,6 +7,10 @@
 (*                           whose raw words differ from before the call,   *)
 (*                           {h, ms} with the members read off the words    *)
 (*   panic {a, msg}          the call panicked: no action explains it       *)
+(* TLC integers are 32 bit: an iterator budget n beyond +-2^30 is logged    *)
+(* clamped to +-2^30 (the property uses n only through min(max(n,0), Len),  *)
+(* Len <= 1024, so the meaning is the same); the real 64-bit argument the   *)
+(* call received is kept in a.nreal / a.ncls for the reader of a replay.    *)
 (* The sparse threshold in force is logged inside `a` (field thr) but no    *)
 (* definition reads it: a reply that depends on it is rejected.             *)
 EXTENDS Bitmap, Json, IOUtils
